@@ -1100,6 +1100,10 @@ func (c *C) memdbWrapper(fn *ssa.Function) (fld string, ki int, meth string, ok 
 	if fn.Blocks == nil || len(fn.Blocks) > 8 {
 		return "", 0, "", false
 	}
+	// it hands out what it found (a predicate that only answers yes or no is an existence/type probe, see advisoryCall)
+	if r := fn.Signature.Results(); r.Len() == 0 || isBoolType(r.At(0).Type()) {
+		return "", 0, "", false
+	}
 	mi := -1
 	for i, p := range fn.Params {
 		if isNamed(p.Type(), c.Facts.MemDb) {
